@@ -330,10 +330,12 @@ func CheckFit(c dec.Ctx, o Outcome) string {
 	if c.P > 0 && nd > c.P {
 		return fmt.Sprintf("coefficient has %d digits > Precision %d: %s", nd, c.P, o.Res)
 	}
+	// the upper bound holds for zeros too (their adjusted exponent is their
+	// exponent; the lower bound is stated for non-zero values only)
+	if adj := o.Res.E + nd - 1; adj > c.Emax {
+		return fmt.Sprintf("adjusted exponent %d > MaxExponent %d: %s", adj, c.Emax, o.Res)
+	}
 	if o.Res.C.Sign() != 0 {
-		if adj := o.Res.E + nd - 1; adj > c.Emax {
-			return fmt.Sprintf("adjusted exponent %d > MaxExponent %d: %s", adj, c.Emax, o.Res)
-		}
 		if c.P > 0 && o.Res.E < c.Etiny() {
 			return fmt.Sprintf("exponent %d < Etiny %d: %s", o.Res.E, c.Etiny(), o.Res)
 		}
